@@ -22,9 +22,7 @@ Finished == rClosed /\ (wClosed \/ (~Pipelined /\ rState = "err"))
 
 GNext ==
     /\ ~Finished
-    /\ \/ /\ \E dir \in BOOLEAN, hdr \in HdrLens, size \in Sizes, parent \in 0..N :
-                N < MaxEntries /\ ScanEntry(dir, hdr, size, parent)
-          /\ UNCHANGED <<hist, rdN>>
+    /\ \/ ScanAny /\ UNCHANGED <<hist, rdN>>
        \/ NewReader /\ UNCHANGED <<hist, rdN>>
        \/ /\ \E e \in 1..N : \E n \in 0..(entries[e].size + (IF WithGrow THEN 1 ELSE 0)) :
                 /\ resized < MaxResize /\ (WithGrow \/ n < srcLen[e]) /\ SourceResize(e, n)
